@@ -174,7 +174,9 @@ fn client_tablet_view(session: &Session, token: i64) -> BTreeSet<(uuid::Uuid, u3
 
 /// Client side of "pools are full": every READY pool connection the mock has seen has carried a probe, i.e. the
 /// client has put it into its pool (however it filed it).
-async fn confirm_pools(r: &Report, desc: &Desc, layout: &Layout, cluster: &MockCluster, session: &Session, pool: &[ConnInfo]) {
+/// Returns false (after recording a violation) if the deadline passes: the awaited condition is about what the DRIVER does
+/// with connections the server has completed, not about the mock.
+async fn confirm_pools(r: &Report, desc: &Desc, layout: &Layout, cluster: &MockCluster, session: &Session, pool: &[ConnInfo], note: &str) -> bool {
     for i in 0..layout.nodes.len() {
         let host = cluster.host_id(i);
         let want: BTreeSet<u64> = pool.iter().filter(|c| c.node == i).map(|c| c.id).collect();
@@ -200,13 +202,19 @@ async fn confirm_pools(r: &Report, desc: &Desc, layout: &Layout, cluster: &MockC
             }
             r.counters.add("pool_probes", 1);
             if t0.elapsed() > DEADLINE {
-                machinery(cluster, desc, &format!("probes aimed at node {i} reached connections {seen:?} only, the mock has {want:?} READY"));
+                r.violation(
+                    "pools:ready-connection-never-carries-a-request",
+                    &format!("{}{note}: the mock completed the handshake of pool connections {want:?} of node {i}, but within {DEADLINE:?} requests aimed at that node (every shard in turn) only ever travelled on {seen:?}", desc.label()),
+                    json!({"desc": desc.to_json(), "only": {"phase": "ports", "ks": "s1", "stmt": "insert", "policy": "default", "key": 0, "generation": 0}}),
+                );
+                return false;
             }
             if !ok || seen.len() == before {
                 tokio::time::sleep(Duration::from_micros(200)).await; // poll interval of a condition wait
             }
         }
     }
+    true
 }
 
 /// Mock side of "where do the connections come from": every pool connection leaves from the configured local address (if
@@ -667,7 +675,9 @@ async fn run_session(r: &Report, desc: &Desc, layout: &Arc<Layout>, cluster: &Mo
     // ---- pools full: mock side (every pool connection READY), then client side (probes)
     let pool = cluster.wait_conns("every pool has its connections READY", DEADLINE, |cs| pools_full(layout, cs, &nobody)).await.unwrap_or_else(|e| machinery(&cluster, desc, &e));
     let pool_has: BTreeSet<(usize, Option<u16>)> = pool.iter().map(|c| (c.node, c.shard)).collect();
-    confirm_pools(r, desc, layout, &cluster, &session, &pool).await;
+    if !confirm_pools(r, desc, layout, &cluster, &session, &pool, "").await {
+        return false;
+    }
     check_ports(r, desc, layout, &cluster, session_log_start, &pool, local_ip, "");
     let conns_at_start = open_ids(&cluster);
     // the driver's view of the metadata the mock served (guards against a harness that misdrives the session)
@@ -833,7 +843,9 @@ async fn run_session(r: &Report, desc: &Desc, layout: &Arc<Layout>, cluster: &Mo
             if pool.iter().any(|c| victims.contains(&c.id)) {
                 machinery(&cluster, desc, "a reset connection is still listed as open");
             }
-            confirm_pools(r, desc, &cur, &cluster, &run.session, &pool).await;
+            if !confirm_pools(r, desc, &cur, &cluster, &run.session, &pool, &format!(" [after restart {step}]")).await {
+                return false;
+            }
             check_ports(r, desc, &cur, &cluster, session_log_start, &pool, local_ip, &format!(" [after restart {step}]"));
             r.counters.add("restarts", 1);
             let conns_before = open_ids(&cluster);
@@ -868,7 +880,14 @@ async fn run_session(r: &Report, desc: &Desc, layout: &Arc<Layout>, cluster: &Mo
         let host = cluster.host_id(v);
         cluster.kill_node(v).await;
         let s2 = &run.session;
-        poll_until("client reports the killed node as not connected", || s2.get_cluster_state().get_nodes_info().iter().find(|n| n.host_id == host).map(|n| !n.is_connected()).unwrap_or(false)).await.unwrap_or_else(|e| machinery(&cluster, desc, &e));
+        if let Err(e) = poll_until("client reports the killed node as not connected", || s2.get_cluster_state().get_nodes_info().iter().find(|n| n.host_id == host).map(|n| !n.is_connected()).unwrap_or(false)).await {
+            r.violation(
+                "down:driver-still-reports-the-killed-node-connected",
+                &format!("{}: node {v} stopped listening and every connection to it was reset, but Node::is_connected() stays true ({e})", desc.label()),
+                json!({"desc": desc.to_json(), "only": {"phase": "down", "ks": "s1", "stmt": "insert", "policy": "default", "key": keys.first().map(|k| k.key).unwrap_or(0), "generation": last_generation}}),
+            );
+            return false;
+        }
         r.counters.add("nodes_killed", 1);
         run.down.insert(v);
         run.pool_has.retain(|(n, _)| *n != v);
@@ -903,14 +922,22 @@ async fn run_session(r: &Report, desc: &Desc, layout: &Arc<Layout>, cluster: &Mo
         run.session.refresh_metadata().await.unwrap_or_else(|e| machinery(&cluster, desc, &format!("refresh_metadata: {e}")));
         let seen_dc = run.session.get_cluster_state().get_nodes_info().iter().find(|n| n.host_id == cluster.host_id(v)).and_then(|n| n.datacenter.clone());
         if seen_dc.as_deref() != Some(new_dc.as_str()) {
-            machinery(&cluster, desc, &format!("after the refresh the driver reports node {v} in {seen_dc:?}"));
+            r.violation(
+                "move:driver-state-stale",
+                &format!("{}: the cluster now reports node {v} in datacenter {new_dc} (was {old_dc}); after refresh_metadata() returned Ok the driver's ClusterState still lists it in {seen_dc:?}", desc.label()),
+                json!({"desc": desc.to_json(), "only": {"phase": "moved", "ks": "s1", "stmt": "insert", "policy": "default", "key": keys.first().map(|k| k.key).unwrap_or(0), "generation": last_generation}}),
+            );
+            cluster.set_location(v, &old_dc, &cur.nodes[v].rack);
+            return false;
         }
         let cur_ref = &cur;
         let pool = cluster
             .wait_conns("pools full after the node was re-created", DEADLINE, |cs| pools_full(cur_ref, cs, &nobody).filter(|p| !p.iter().any(|c| old_ids.contains(&c.id))))
             .await
             .unwrap_or_else(|e| machinery(&cluster, desc, &e));
-        confirm_pools(r, desc, &cur, &cluster, &run.session, &pool).await;
+        if !confirm_pools(r, desc, &cur, &cluster, &run.session, &pool, " [after the move]").await {
+            return false;
+        }
         r.counters.add("nodes_moved_to_another_dc", 1);
         run.layout = Arc::new(cur.clone());
         run.pool_has = pool.iter().map(|c| (c.node, c.shard)).collect();
